@@ -382,6 +382,17 @@ def run_check(mod, tier, seed, replay=None):
         if not okc:
             broken_obligations.append(lc_note)
 
+    # 2b. source anchors: has the Rust code a model mirrors changed since the model was validated against it?
+    anchors_changed = []
+    try:
+        import anchors as _anchors, anchor_table as _at
+        anchors_changed = _anchors.changed(prop, _at.ANCHORS.get(prop, []))
+    except Exception as e:  # never let the fingerprinting break a check
+        anchors_changed = []
+        log("NOTE anchors not evaluated: %s" % e)
+    if anchors_changed and not replay:
+        log("NOTE modelled source changed since validation (%s): widening the search to the thorough generators" % ", ".join(anchors_changed))
+
     # 3. harness against /repo's working tree
     okc, outc = cargo_build()
     if not okc:
@@ -400,7 +411,7 @@ def run_check(mod, tier, seed, replay=None):
         lines = payload.get("cases") or [payload["case"]]
     else:
         lines = read_corpus(prop) + list(mod.corpus())
-        search_tier = "thorough" if broken_obligations else tier
+        search_tier = "thorough" if (broken_obligations or anchors_changed) else tier
         lines += list(mod.generate(search_tier, rng, hist))
     results = run_cases(prop, lines, limit_ms=getattr(mod, "LIMIT_MS", 10000))
 
@@ -461,6 +472,8 @@ def run_check(mod, tier, seed, replay=None):
 
     # 6. evidence
     ev = evidence(mod, tier, seed, t0, results, hist, len(theorems), discharged, broken_obligations, len(violations), lc_note, known=sorted(set(str(f.get("id") or f.get("key")) for f, _ in known)))
+    ev["coverage"]["source_anchors_changed"] = anchors_changed
+    ev["coverage"]["search_widened"] = bool(anchors_changed or broken_obligations)
     write_evidence(prop, ev)
     log("%s %s: %d theorems audited (%d ok), %d cases, %d distinct non-trivial, %d violations, %.1fs" % (prop, tier, len(theorems), discharged, len(results), ev["coverage"]["distinct_nontrivial"], len(violations), time.time() - t0))
     return 1 if violations else 0
